@@ -2,6 +2,7 @@ package main
 
 import (
 	"fmt"
+	"math/big"
 	"go/types"
 	"strings"
 
@@ -53,14 +54,14 @@ func (p *Prog) verifyFunc(t target, findings []*Finding) (fr *FuncResult) {
 	}
 	c := newCtx()
 	fr.Ctx = c
-	st := &State{pc: "true", vars: map[*ssa.Alloc]Val{}, heaps: map[string]string{}, regs: map[ssa.Value]Val{}}
+	st := &State{pc: "true", vars: map[*ssa.Alloc]Val{}, heaps: map[string]string{}, regs: map[ssa.Value]Val{}, hist: new(big.Int)}
 	for _, k := range heapKinds {
 		st.heaps[k] = c.fresh("HP", "H0"+k)
 	}
 	st.A = c.fresh("Int", "A0")
 	c.assume("true", fmt.Sprintf("(< 2000000 %s)", st.A))
 	// the entry heap is closed: references stored in objects that exist at entry point to objects that exist at entry
-	c.lines = append(c.lines, fmt.Sprintf("(assert (forall ((o Int) (x Int)) (! (=> (< o %s) (< (select (select %s o) x) %s)) :pattern ((select (select %s o) x)))))", st.A, st.heaps["ref"], st.A, st.heaps["ref"]))
+	c.emit(fmt.Sprintf("(assert (forall ((o Int) (x Int)) (! (=> (< o %s) (< (select (select %s o) x) %s)) :pattern ((select (select %s o) x)))))", st.A, st.heaps["ref"], st.A, st.heaps["ref"]), false)
 	e := &Exec{p: p, c: c, fn: fn, spec: sp, name: fr.Name, counters: map[string]int{}, trusted: map[string]bool{}, inlined: map[string]bool{},
 		bounded: map[string]bool{}, closures: map[string]*closureVal{}}
 	e.root = e
@@ -145,12 +146,14 @@ func (p *Prog) verifyFunc(t target, findings []*Finding) (fr *FuncResult) {
 					o.at = len(c.lines)
 					o.goal = fmt.Sprintf("(=> %s %s)", r.st.pc, goal)
 					o.ctx = c
+					o.hist = r.st.hist
 					c.skolemize(o, r.st.pc, goal)
 					c.obls = append(c.obls, o)
 				}
 			}
 		}
 	}
+	c.curHist = fin.hist
 	c.oblige(&Obl{Name: fr.Name + ":vacuity:exit-reachable", Func: fr.Name, Kind: "vacuity", Label: "exit-reachable", Props: e.props, Expect: "sat"}, fin.pc, "false")
 	for k := range e.trusted {
 		fr.Trusted = append(fr.Trusted, k)
